@@ -96,6 +96,14 @@ def targets(i):
     return []
 
 
+def S(x):
+    """str() of an ir object that never raises (deleted jumps cannot be printed)"""
+    try:
+        return str(x)
+    except Exception:      # noqa: BLE001
+        return '<%s deleted>' % type(x).__name__
+
+
 def ids(xs):
     return sorted(set(id(x) for x in xs))
 
@@ -113,10 +121,10 @@ def bookkeeping(m):
                 out.append(('block.function', '%s.%s' % (f.name, b.name)))
             for i in b.instructions:
                 if id(i) in attached:
-                    out.append(('listed-twice', str(i)))
+                    out.append(('listed-twice', S(i)))
                 attached[id(i)] = (f, b)
                 if i.block is not b:
-                    out.append(('instr.block', '%s in %s' % (i, b.name)))
+                    out.append(('instr.block', '%s in %s' % (S(i), b.name)))
     values = []
     for f in m.functions:
         values += list(f.arguments)
@@ -125,31 +133,31 @@ def bookkeeping(m):
                 ops = operands(i)
                 if ids(ops) != ids(i.uses):
                     out.append(('uses', '%s.%s: %s stored uses=%s operands=%s' % (
-                        f.name, b.name, i, sorted(u.name for u in i.uses), sorted(o.name for o in ops))))
+                        f.name, b.name, S(i), sorted(u.name for u in i.uses), sorted(o.name for o in ops))))
                 if len(list(i.uses)) != len(ids(i.uses)):
-                    out.append(('uses-dup', str(i)))
+                    out.append(('uses-dup', S(i)))
                 for o in ops:
                     if id(i) not in [id(u) for u in o.used_by]:
                         out.append(('used_by-missing', '%s.%s: %s not in used_by of %s' % (
-                            f.name, b.name, i, o.name)))
+                            f.name, b.name, S(i), o.name)))
                     if isinstance(o, ir.LocalValue) and not isinstance(o, ir.Parameter) \
                             and id(o) not in attached:
                         out.append(('dangling-operand', '%s.%s: %s uses detached %s' % (
-                            f.name, b.name, i, o.name)))
+                            f.name, b.name, S(i), o.name)))
                 if isinstance(i, ir.Value):
                     values.append(i)
                 if type(i) is ir.Phi:
                     for pb in i.inputs:
                         if blocks_of.get(id(pb)) is not f:
                             out.append(('phi-block-outside', '%s.%s: %s has input from removed block %s' % (
-                                f.name, b.name, i, pb.name)))
+                                f.name, b.name, S(i), pb.name)))
     values += list(m.externals) + list(m.variables) + list(m.functions)
     for v in values:
         for u in v.used_by:
             if id(u) not in attached:
-                out.append(('used_by-stale', '%s is used_by detached %s' % (v.name, u)))
+                out.append(('used_by-stale', '%s is used_by detached %s' % (v.name, S(u))))
             elif id(v) not in [id(o) for o in operands(u)]:
-                out.append(('used_by-extra', '%s is used_by %s which does not use it' % (v.name, u)))
+                out.append(('used_by-extra', '%s is used_by %s which does not use it' % (v.name, S(u))))
         if len(list(v.used_by)) != len(ids(v.used_by)):
             out.append(('used_by-dup', v.name))
     for f in m.functions:
@@ -158,14 +166,14 @@ def bookkeeping(m):
             for i in b.instructions:
                 for t in targets(i):
                     if id(t) not in derived:
-                        out.append(('target-outside', '%s.%s: %s' % (f.name, b.name, i)))
+                        out.append(('target-outside', '%s.%s: %s' % (f.name, b.name, S(i))))
                     else:
                         derived[id(t)].append(i)
         for b in f.blocks:
             if ids(derived[id(b)]) != ids(b.references):
                 out.append(('references', '%s.%s: stored=%s derived=%s' % (
-                    f.name, b.name, sorted(str(r) for r in b.references),
-                    sorted(str(r) for r in derived[id(b)]))))
+                    f.name, b.name, sorted(S(r) for r in b.references),
+                    sorted(S(r) for r in derived[id(b)]))))
     return out
 
 
